@@ -730,6 +730,12 @@ def observe_levels(case):
     for mk, pr in zip(masks, props):
         g = mk.grid
         obs['grids'].append(([int(v) for v in g.dims], [float(v) for v in g.delta], [float(v) for v in g.zero]))
+        # index, on each axis, of the sample at the origin (the mask singularity / window peak must sit there)
+        org = []
+        for k in range(2):
+            hit = np.flatnonzero(np.abs(np.asarray(g.separated_coords[k])) <= 1e-9 * float(g.delta[k]))
+            org.append(int(hit[0]) if len(hit) == 1 else -1)
+        obs.setdefault('origins', []).append(org)
         obs['props'].append({'FourierFilter': 0, 'FraunhoferPropagator': 1}.get(type(pr).__name__, -1))
     if kind == 'unit':
         # recover every window: M_i = (1 - w_i) - sum_j resample(M_j)
@@ -776,7 +782,7 @@ def check_levels_case(ctx, case, resp, obs):
     rows = m['lv'].split(';')
     pads = [] if m['pad'] == '-' else m['pad'].split(';')
     for i, row in enumerate(rows):
-        qi, na, dims, delta, zero, kind = row.split('|')
+        qi, na, dims, delta, zero, kind, origin = row.split('|')
         d = [int(v) for v in dims.split(',')]
         de = [float(Fraction(v)) for v in delta.split(',')]
         ze = [float(Fraction(v)) for v in zero.split(',')]
@@ -785,6 +791,10 @@ def check_levels_case(ctx, case, resp, obs):
             all(abs(a - b) <= 1e-12 * max(abs(b), de[k]) for k, (a, b) in enumerate(zip(gze, ze))) and obs['props'][i] == int(kind)
         if not ok:
             ctx.disagree('C09 levels', {'case': short, 'level': i, 'impl': [gd, gde, gze, obs['props'][i]], 'model': row})
+            return
+        ctx.traces_validated += 1
+        if obs['origins'][i] != [int(v) for v in origin.split(',')]:
+            ctx.disagree('C09 origin index', {'case': short, 'level': i, 'impl_origin_sample': obs['origins'][i], 'model': origin})
             return
         if i < len(pads) and obs['windows']:
             _, b, a = pads[i].split(':')
